@@ -15,7 +15,7 @@
    TLC checks Impl = Prop for every generated file and exports file + expected partition.    *)
 EXTENDS Integers, Sequences, FiniteSets, TLC, Json
 
-CONSTANTS MaxSegs, MaxFrags, Delims, EmsgOpts, SegSidxOpts, FlagOpts, TrackOpts, DoExport
+CONSTANTS MaxSegs, MaxFrags, Delims, EmsgOpts, SegSidxOpts, FlagOpts, TrackOpts, TrunOpts, DoExport
 
 RECURSIVE SumSeq(_)
 SumSeq(s) == IF s = <<>> THEN 0 ELSE Head(s) + SumSeq(Tail(s))
@@ -52,7 +52,8 @@ FileOf(p) == <<[k |-> "ftyp"], [k |-> "moov", ntracks |-> p.ntracks]>>
 RECURSIVE Comp(_, _)      \* compositions of n with parts <= m
 Comp(n, m) == IF n = 0 THEN {<<>>} ELSE UNION {{<<k>> \o c : c \in Comp(n - k, m)} : k \in 1 .. (IF n < m THEN n ELSE m)}
 Params == {p \in [fps : UNION {Comp(n, MaxFrags) : n \in 1 .. (MaxSegs * MaxFrags)}, delim : Delims, emsg : EmsgOpts,
-                  segsidx : SegSidxOpts, ntracks : TrackOpts, flags : FlagOpts] :
+                  segsidx : SegSidxOpts, ntracks : TrackOpts, flags : FlagOpts,
+                  truns : TrunOpts] :          \* track runs per track fragment (the two samples of a fragment in one trun or in two)
               /\ Len(p.fps) <= MaxSegs
               /\ (p.segsidx > 0 => HasStyp(p.delim))
               /\ (p.delim = "mfra" => p.flags = "ism") /\ (p.delim = "mfra-noflag" => p.flags = "none")
